@@ -799,7 +799,7 @@ def run_c10_typed(ctx, ndocs=None):
         L = ctx.letters(cfg)
         ctx.letters_now = L
         feats = engine.CONFIGS[cfg][0]
-        opts = (('raw',) if 'raw_value' in feats else ()) + (('nof32',) if 'float_roundtrip' in feats else ())
+        opts = cfg_opts(cfg)
         n = ndocs or (400 if ctx.tier == 'quick' else 4000)
         docs = list(typed_docs(ctx, n, opts))
         docs += fixed_typed_docs(ctx, cfg)
@@ -840,6 +840,8 @@ def run_c10_typed(ctx, ndocs=None):
         for tyt, _, _, doc in docs[:3]:
             ctx.sample({'ty': tyt, 'doc_hex': hx(doc), 'cfg': cfg, 'checked': 'every proper prefix, slice and 1-byte reader, against the model and Eof-at-end'})
         ctx.violations += v
+    run_c10_typed_stream(ctx)
+    run_c10_typed_space(ctx)
 
 def fixed_typed_docs(ctx, cfg):
     """hand-written (type, document) pairs covering ignored/unknown fields, raw members, 128-bit integers, quoted keys, nested enums"""
@@ -887,10 +889,18 @@ def typed_space(ctx, small=False):
             yield tyt, d
         for d in typed:
             yield tyt, d
+    # float targets over the number-literal families (f32 has its own parsing path under float_roundtrip)
+    lits = gen.number_literals(ctx.rng, 300 if quick or small else 3000)
+    if quick or small:
+        lits = lits[::9]
+    for d in lits:
+        yield 'f', d
+        yield 'd', d
+        yield 'mfu', b'{"' + d + b'":null}'
 
 def cfg_opts(cfg):
     feats = engine.CONFIGS[cfg][0]
-    return (('raw',) if 'raw_value' in feats else ()) + (('nof32',) if 'float_roundtrip' in feats else ())
+    return (('raw',) if 'raw_value' in feats else ())
 
 def typed_mutants(ctx, cfg, ndocs, per_doc=25):
     rng = ctx.rng
@@ -1129,6 +1139,71 @@ def run_c10_typed_space(ctx):
                                       'expected': 'ok or Eof at end of input (proper prefix of an accepted input of the space)', 'actual': o, 'shrinkable': False})
                 ctx.distinct_nontrivial += len(viable)
         ctx.violations += v
+
+# ================================================================== typed clause of C10 / C12 through StreamDeserializer
+def cut_at_error(hist):
+    out = []
+    for it in hist.split(' '):
+        out.append(it)
+        if it.startswith('E'):
+            break
+    return out
+
+def run_c10_typed_stream(ctx, nstreams=None):
+    """streams of typed items (values of one type separated by whitespace), cut at every byte: items before the cut are values,
+    the item containing the cut is a value, None, or an Eof-category error at end of input; histories equal the model's up to the first error,
+    then None forever"""
+    rng = ctx.rng
+    for cfg in ctx.cfgs:
+        L = ctx.letters(cfg)
+        ctx.letters_now = L
+        v = []
+        n = nstreams or (150 if ctx.tier == 'quick' else 1500)
+        streams = []
+        for _ in range(n):
+            t = rand_ty(rng, rng.choice([0, 1, 1, 2, 2, 3]), cfg_opts(cfg) + ('noz',))
+            parts = []
+            for _ in range(rng.randrange(1, 4)):
+                d = rand_dval(rng, t, L, maxlen=3)
+                parts.append(render(rng, t, d))
+            s = gen.rand_ws(rng) + rng.choice([b' ', b'\n', b' \n', b'\t']).join(parts) + gen.rand_ws(rng)
+            if len(s) <= 300:
+                streams.append((enc_ty(t), s, len(parts)))
+        for src in ('b', 'r1'):
+            lines, meta = [], []
+            for tyt, s, k in streams:
+                lines.append('ptk %s %s %s %d %s' % (L, src, tyt, k + 2, hx(s)))
+                meta.append((tyt, s, k, True))
+                for cut in range(len(s)):
+                    lines.append('ptk %s %s %s %d %s' % (L, src, tyt, k + 2, hx(s[:cut])))
+                    meta.append((tyt, s[:cut], k, False))
+            io, mo = ctx.both(cfg, lines, impl_name=IMPL, model_name=MODEL)
+            ctx.distinct_nontrivial += len(lines)
+            for (tyt, data, k, whole), ln, a, m in zip(meta, lines, io, mo):
+                if a == 'SKIP':
+                    continue
+                if a == 'PANIC' or a.startswith('CRASH'):
+                    v.append({'what': 'typed-stream-crash', 'cfg': cfg, 'line': ln, 'expected': m, 'actual': a, 'shrinkable': False})
+                    continue
+                ca = cut_at_error(a)
+                if m != 'NOMODEL' and ca != cut_at_error(m):
+                    v.append({'what': 'typed-stream-history', 'cfg': cfg, 'line': ln, 'expected': 'proved model: ' + m, 'actual': a, 'shrinkable': False})
+                    continue
+                items = a.split(' ')
+                if whole and not (all(x.startswith('V') for x in items[:k]) and items[k].startswith('N')):
+                    v.append({'what': 'typed-stream-items', 'cfg': cfg, 'line': ln, 'expected': '%d values then None' % k, 'actual': a, 'shrinkable': False})
+                errs = [x for x in items if x.startswith('E')]
+                if errs:
+                    e = errs[0].split('@')[0].split('/')
+                    endpos = pos_of(data, len(data))
+                    if e[1] != 'eof' or (int(e[2]), int(e[3])) != endpos:
+                        v.append({'what': 'typed-stream-truncation-not-eof', 'cfg': cfg, 'line': ln, 'expected': 'values, then None or an Eof error at end of input %r' % (endpos,), 'actual': a, 'shrinkable': False})
+                    after = items[items.index(errs[0]) + 1:]
+                    if any(not x.startswith('N') for x in after):
+                        v.append({'what': 'typed-stream-not-fused', 'cfg': cfg, 'line': ln, 'expected': 'None forever after a terminal error', 'actual': a, 'shrinkable': False})
+        ctx.violations += v
+        for tyt, s, k in streams[:2]:
+            ctx.sample({'op': 'ptk', 'ty': tyt, 'stream_hex': hx(s), 'items': k, 'cfg': cfg, 'checked': 'every cut point'})
 
 # ================================================================== typed clause of C14: depth limit for every typed entry point
 LEVELS = {  # kind -> (levels consumed, ty wrapper, document wrapper)
